@@ -1412,7 +1412,7 @@ func fixedSeqs() []Case {
 		ops = append([]Op{ops[0], {Op: "hist", F: "d0.yaml", H: &h}}, ops[1:]...)
 		cs = append(cs, Case{Kind: "seq", Stream: "fixed-f9a", Files: []FileC{f("d0.yaml", mv([]Val{sv("stop"), sv("0 0 30 2 *")}))}, Ops: ops})
 	}
-	// F9b: two start schedules matching one minute
+	// F9b (repaired in /repo, 7357cf4): two start schedules matching one minute used to start the DAG twice
 	cs = append(cs, Case{Kind: "seq", Stream: "fixed-f9b", Files: []FileC{f("d0.yaml", lv(sv("* * * * *"), sv("*/2 * * * *")))}, Ops: ticks(2)})
 	cs = append(cs, Case{Kind: "seq", Stream: "fixed-f9b-live", Live: true, Files: []FileC{f("d0.yaml", lv(sv("* * * * *"), sv("*/2 * * * *")))}, Ops: ticks(1)})
 	// F13a / F13b (repaired in /repo: the files now merely fail to load) at the initial scan and through the watcher
